@@ -128,8 +128,10 @@ func checkC05(c *c05Case) (msg string, nontrivial bool, labels []string) {
 	var first [][]any
 	var firstCfg lib.Cfg
 	for _, mode := range []string{"row", "batch"} {
-		for _, cache := range []bool{true, false} {
-			cfg := lib.Cfg{Mode: mode, Batch: c.Batch, Cache: cache}
+		// (round 11: the last two configurations switch the cache after the
+		// execute context has been created)
+		for ci, cache := range []bool{true, false, true, false} {
+			cfg := lib.Cfg{Mode: mode, Batch: c.Batch, Cache: cache, StaleCtx: ci >= 2}
 			res := lib.Run(q, lib.NewStore(c.Pairs), len(c.Pairs), cfg)
 			if res.BuildErr != nil {
 				return "", false, append(labels, "rejected-by-engine")
